@@ -767,6 +767,22 @@ func runPackStream(o *Opts) {
 		jobs = append(jobs, job{&PackCase{Init: t2, Src: "/w/src", Cwd: "/", Deref: true, FailAt: -1}, ig2, true, rng.Fork()})
 		t3, ig3 := mk("", func(src *TNode) { delete(src.Kids, "x") }) // D9: the source given by way of a symlink
 		jobs = append(jobs, job{&PackCase{Init: t3, Src: "/w/lnk", Cwd: "/", FailAt: -1}, ig3, false, rng.Fork()})
+		// rule files, run on every invocation whatever the seed: a malformed line among valid rules (the valid ones stay in
+		// force), every rule form once, negations that re-include below an excluded directory, the built-in rules
+		for _, rf := range []string{"notes[draft.md\nsecret.txt\nlogs/\n", "secret.txt\n[\nlogs/\n", "logs/\nx.tf[\n!logs/keep\n", "/secret.txt\n", "logs/\n!logs/keep\n",
+			"*.txt\n!secret.txt\n", "**/keep\n", "logs/*\n", "s?cret.txt\n", "!secret.txt\n*\n", "logs\n", "/logs/**/b.log\n", "", " \n#c\n"} {
+			for _, legacy := range []bool{false, true} {
+				t4, ig4 := mk(rf, func(src *TNode) {
+					delete(src.Kids, "x")
+					src.Kids["secret.txt"] = tfile("s", 0o600)
+					src.Kids["logs"] = tdir(0o755, map[string]*TNode{"a.log": tfile("l", 0o644), "keep": tfile("k", 0o644),
+						"deep": tdir(0o755, map[string]*TNode{"b.log": tfile("b", 0o644)})})
+					src.Kids[".git"] = tdir(0o755, map[string]*TNode{"HEAD": tfile("ref", 0o644)})
+					src.Kids[".terraform"] = tdir(0o755, map[string]*TNode{"x": tfile("x", 0o644), "modules": tdir(0o755, map[string]*TNode{"m": tfile("m", 0o644)})})
+				})
+				jobs = append(jobs, job{&PackCase{Init: t4, Src: "/w/src", Cwd: "/", Ignore: true, Legacy: legacy, FailAt: -1}, ig4, false, rng.Fork()})
+			}
+		}
 	}
 	// template sweep, run on every invocation whatever the seed: one link of each shape the generator knows, at the
 	// top of the source directory and one level down, with and without dereferencing, with and without an allow list
